@@ -217,13 +217,17 @@ func (c *Cache) addJarToCache(sessionID string, jar http.CookieJar) {
 
 // cachedCookieJar returns the CookieJar mapped to the sessionID
 func (c *Cache) cachedCookieJar(sessionID string) (jar http.CookieJar, err error) {
+	// lru.Cache is not safe for concurrent use (Get reorders its list), and the
+	// lookup and the insertion of a missing jar must be one atomic step.
+	c.mu.Lock()
+	defer c.mu.Unlock()
 	val, ok := c.cache.Get(sessionID)
 	if !ok {
 		options := cookiejar.Options{
 			PublicSuffixList: publicsuffix.List,
 		}
 		jar, err = cookiejar.New(&options)
-		c.addJarToCache(sessionID, jar)
+		c.cache.Add(sessionID, jar)
 		return jar, err
 	}
 
